@@ -44,7 +44,7 @@ SMALL = [
     ("pool 2 2", [["run 1", "run 2", "run 3"], ["stop"]], True, 2),
     ("pool 2 1", [["run 1", "run 2"], ["stop"]], False, 1),
     ("pool 2 1", [["run 1"], ["run 2", "stop", "run 3"]], False, 1),
-    ("pool 3 0", [["run 1"], ["stop"]], False, 1),
+    ("pool 3 0", [["run 1"], ["stop"]], False, 0),
     ("pool 2 1", [["run 1", "run 2"], ["stop"]], False, 2),
 ]
 
